@@ -150,7 +150,7 @@ def run(ctx, R):
                 a, variables = base_query(**kw)
                 vids, eids, outs = S.MapV(), S.MapV(), S.MapV()
                 ip = A.Interp(C, intrinsics=intr, max_steps=60000)
-                res = A.deref(ip.call_fn(f, [vids, eids, outs, variables, a, A.VecV([])]))
+                res = A.deref(ip.call_by_type(f, [("BTreeMap<trustfall_core::ir::Vid", vids), ("BTreeMap<trustfall_core::ir::Eid", eids), ("indexed::Output", outs), ("types::base::Type", variables), ("Arc<trustfall_core::ir::IRQueryComponent", a), ("Vec<bool>", A.VecV([]))]))
                 if res.variant == "Ok":
                     got = "Ok"
                 else:
@@ -258,7 +258,7 @@ def run(ctx, R):
                                                                 "component_imported_tags": stack})
                         ip = A.Interp(C, intrinsics=intr)
                         try:
-                            res = A.deref(ip.call_fn(rt, [th, "t", path(up), use_vid]))
+                            res = A.deref(ip.call_by_type(rt, [("TagHandler", th), ("str", "t"), ("ComponentPath", path(up)), ("Vid", use_vid)]))
                             got = "Ok" if res.variant == "Ok" else A.deref(res.fields[0]).variant
                         except A.PanicReached as e:
                             got = "PANIC:" + e.what
@@ -280,7 +280,7 @@ def run(ctx, R):
                                    "imports": imported, "want_imports": want_imp, "tag_already_used_elsewhere": pre_used}
             ip = A.Interp(C, intrinsics=intr)
             th = A.Struct(FE + "tags::TagHandler", {"tags": S.MapV(), "used_tags": S.SetV(), "component_imported_tags": A.VecV([])})
-            res = A.deref(ip.call_fn(rt, [th, "nope", path((1,)), 3]))
+            res = A.deref(ip.call_by_type(rt, [("TagHandler", th), ("str", "nope"), ("ComponentPath", path((1,))), ("Vid", 3)]))
             undefined_ok = res.variant == "Err" and A.deref(res.fields[0]).variant == "UndefinedTag"
         except A.Unsupported as e:
             R.fail("r3", "unanalysable", C.loc(rt["sp"]), "cannot evaluate reference_tag abstractly: %s (fail closed)" % e)
@@ -430,7 +430,7 @@ def variable_type_table(ctx, R, fv):
                     comp = component(1, [vertex(1, [use("x", t1)])], folds=[(2, f)])
                 variables = S.MapV()
                 ip = A.Interp(C, I, max_steps=200000)
-                res = A.deref(ip.call_fn(fv, [A.Ref(lambda variables=variables: variables, lambda v: None), comp]))
+                res = A.deref(ip.call_by_type(fv, [("BTreeMap", A.Ref(lambda variables=variables: variables, lambda v: None)), ("IRQueryComponent", comp)]))
                 n += 1
                 want = T.meet(t1, t2)
                 rec = variables.get("x")
